@@ -292,7 +292,19 @@ def box(v: V) -> V:
         return V(ANY, f(*[box(i).t for i in v.items]))
     if k == "star":
         return V(ANY, z3.Int("box_star_" + str(v.py)))
+    if k in ("static", "class"):
+        return V(ANY, static_ref(v.py))
     raise Unsupported("cannot box %s" % v.ty)
+
+
+_static_ids = {}
+
+
+def static_ref(qual):
+    """a distinct positive constant for every statically resolved function / class"""
+    if qual not in _static_ids:
+        _static_ids[qual] = len(_static_ids) + 1
+    return z3.IntVal(-1000 - _static_ids[qual])
 
 
 def coerce(v: V, ty: Ty) -> V:
